@@ -11,6 +11,8 @@ PROP = dict(
         dict(module="MCClientCall", cfg="MCClientCall_asbuilt_d9b.cfg", expect_violation="InvReleased", timeout=300, workers=2),  # D9b
         dict(module="MCClientCall", cfg="MCClientCall_asbuilt_d18.cfg", expect_violation="InvReleased", timeout=300, workers=2),  # D18
         dict(module="MCClientDrain", cfg="MCClientDrain_asbuilt.cfg", expect_violation="InvDrained", timeout=300, workers=2),     # D16
+        # mutant: the call cancels its own context before closing the body => with reuse the drain is cut short, body closed undrained
+        dict(module="MCClientCall", cfg="MCClientCall_asbuilt_cancelfirst.cfg", expect_violation="InvReleased", timeout=300, workers=2),
         # liveness form of D9: with the pre-fix behaviour the writer goroutine never dies (temporal counterexample)
         dict(module="MCClientCall", cfg="MCClientCall_asbuilt_live.cfg", expect_violation="Temporal property WriterDies", timeout=600, workers=2),
     ],
